@@ -85,7 +85,7 @@ func runCLI(in []byte) (*reg.Result, error) {
 			root := filepath.Join(work, fmt.Sprintf("w%d", wk))
 			for i := range ch {
 				c := inp.Cases[i]
-				if !c.CustomOptions || !c.KnownExt || len(c.Include) == 0 {
+				if !c.CustomOptions || !c.KnownExt || len(c.Include) == 0 || c.LibImport {
 					continue
 				}
 				if err := os.RemoveAll(root); err != nil {
@@ -135,6 +135,16 @@ func runCLI(in []byte) (*reg.Result, error) {
 						fail(err)
 					} else if got := elementNames(fds); strings.Join(got, ",") != strings.Join(want, ",") {
 						res.Violate("cli/build-type/elements/"+sig, info, "buf build --type: surviving elements differ:\n got %v\nwant %v", got, want)
+					}
+					// the same with --exclude-imports: the imports of this workspace are well-known types only, the filter must
+					// still be able to look up what the kept types need in them
+					args = append(args[:3], append([]string{filepath.Join(root, "out2.binpb"), "--exclude-imports"}, args[4:]...)...)
+					if stderr, code := runBuf(args...); code != 0 {
+						res.Violate("cli/build-type-exclude-imports/error/"+sig, info, "buf build --type --exclude-imports failed for a filter without conflict: %s", stderr)
+					} else if fds, err := readSet(filepath.Join(root, "out2.binpb")); err != nil {
+						fail(err)
+					} else if got := elementNames(fds); strings.Join(got, ",") != strings.Join(want, ",") {
+						res.Violate("cli/build-type-exclude-imports/elements/"+sig, info, "buf build --type --exclude-imports: surviving elements differ:\n got %v\nwant %v", got, want)
 					}
 				}
 				// 2. buf generate: a filtered plugin next to an unfiltered one, or the filter given as flags
